@@ -29,6 +29,20 @@ Theorem c20_no_silent_loss :
     deltify_tx H Deqb true all_ok target s maxop = (DOk, t).
 Proof. exact (no_silent_loss D H Deqb). Qed.
 
+(* The same in terms of the oracle: every transmit call that was made
+   succeeded (the call log is faithful to the oracle, c20_log_faithful). *)
+Theorem c20_no_silent_loss_calls :
+  forall (tx : nat -> bool) (target : list byte) (s : sig D) (maxop : nat) (t : tlog),
+    deltify_tx H Deqb true tx target s maxop = (DOk, t) ->
+    (forall i, i < length t -> tx i = true) /\
+    deltify_tx H Deqb true all_ok target s maxop = (DOk, t).
+Proof. exact (no_silent_loss_calls D H Deqb). Qed.
+
+Theorem c20_log_faithful :
+  forall (fixed : bool) (tx : nat -> bool) (target : list byte) (s : sig D) (maxop : nat) (i : nat) (b : bool),
+    nth_error (map snd (snd (deltify_tx H Deqb fixed tx target s maxop))) i = Some b -> b = tx i.
+Proof. exact (log_faithful D H Deqb). Qed.
+
 (* What transmit.go relies on ("as soon as it's returned non-nil, the transmit
    function won't be called again"): the outcome of the last call tells
    whether any call failed. *)
@@ -116,6 +130,8 @@ Example c20_fixed_reports_witness :
 Proof. exact fixed_reports_witness. Qed.
 
 Print Assumptions c20_no_silent_loss.
+Print Assumptions c20_no_silent_loss_calls.
+Print Assumptions c20_log_faithful.
 Print Assumptions c20_last_call_tells.
 Print Assumptions c20_returns.
 Print Assumptions c20_either.
